@@ -6,6 +6,9 @@
 (* compares outcome, every live table (four observation channels) and the aliasing structure.     *)
 (* Augmented assignments (e += record / table / None) are recorded for names that are the only    *)
 (* one for their object; per-column transforms carry the list of functions (DoFnApply).           *)
+(* The caller's argument objects (st.av) are part of the state: Bind / edit events change them,   *)
+(* calls that name them are stepped with their CURRENT value, and after EVERY event the logged     *)
+(* objects must equal st.av (argument_changed).                                                    *)
 EXTENDS DictableOps, Batch
 
 St0 == [heap |-> <<>>, reg |-> [r \in Regs |-> 0], av |-> NoArgs]
